@@ -9,10 +9,12 @@ package main
 // byte-level mutations of valid documents.  Stage-level correspondence ops are in c01_models.go.
 
 import (
+	"bufio"
 	"context"
 	"encoding/json"
 	"fmt"
 	"os"
+	"os/exec"
 	"path/filepath"
 	"regexp"
 	"runtime/debug"
@@ -128,7 +130,17 @@ func judgeC01Load(args, real, _ json.RawMessage) *core.Verdict {
 	}
 	json.Unmarshal(real, &r)
 	if why := nonTermination(real); why != "" {
-		return core.Fail("hang@"+hangCause(a), fmt.Sprintf("load does not return (%s; shape %s)", why, a.Shape))
+		if !strings.HasPrefix(a.Shape, "cycle/") {
+			// outside the stream of inputs that are expected not to return: confirm in isolation first
+			if again := confirmNonTermination("c01load", args, 30*time.Second); again != nil && nonTermination(again) == "" {
+				real = again
+				json.Unmarshal(real, &r)
+				why = ""
+			}
+		}
+		if why != "" {
+			return core.Fail("hang@"+hangCause(a), fmt.Sprintf("load does not return (%s; shape %s)", why, a.Shape))
+		}
 	}
 	if v := core.CrashVerdict(real); v != nil {
 		return v
@@ -189,6 +201,53 @@ func nonTermination(real json.RawMessage) string {
 	return ""
 }
 
+// confirmNonTermination re-executes one case alone in a fresh child process with a longer watchdog.  A watchdog
+// that fires inside a busy batch on a loaded machine is not evidence; only an input that again fails to return
+// in isolation is reported.  Returns the outcome of the second execution.
+func confirmNonTermination(check string, args json.RawMessage, timeout time.Duration) json.RawMessage {
+	self, err := os.Executable()
+	if err != nil {
+		return nil
+	}
+	cmd := exec.Command(self, "-serve")
+	cmd.Env = append(os.Environ(), "GOMEMLIMIT=2GiB", "GOMAXPROCS=2")
+	in, err1 := cmd.StdinPipe()
+	out, err2 := cmd.StdoutPipe()
+	if err1 != nil || err2 != nil || cmd.Start() != nil {
+		return nil
+	}
+	defer func() { in.Close(); cmd.Process.Kill(); cmd.Wait() }()
+	line, _ := json.Marshal(map[string]any{"id": 0, "op": check, "args": args})
+	go in.Write(append(line, '\n'))
+	res := make(chan json.RawMessage, 1)
+	go func() {
+		rd := bufio.NewReaderSize(out, 1<<20)
+		for {
+			l, err := rd.ReadBytes('\n')
+			var w struct {
+				ID  *int            `json:"id"`
+				Out json.RawMessage `json:"out"`
+			}
+			if json.Unmarshal(l, &w) == nil && w.ID != nil && w.Out != nil {
+				res <- w.Out
+				return
+			}
+			if err != nil {
+				b, _ := json.Marshal(map[string]any{"fatal": "died again when run alone"})
+				res <- b
+				return
+			}
+		}
+	}()
+	select {
+	case r := <-res:
+		return r
+	case <-time.After(timeout):
+		b, _ := json.Marshal(map[string]any{"hang": fmt.Sprintf(">%s (alone)", timeout)})
+		return b
+	}
+}
+
 var selfMergeRe = regexp.MustCompile(`<<\s*:\s*\[?\s*\*`)
 var multiPathRe = regexp.MustCompile(`path:\s*\[[^\]\n]*,`)
 
@@ -202,12 +261,19 @@ func hangCause(a c01Args) string {
 			return "alias-self-merge"
 		case strings.HasPrefix(a.Shape, "cycle/include-override-position"):
 			return "include-override-position"
+		case strings.HasPrefix(a.Shape, "cycle/alias-override-cycle"):
+			return "alias-override-cycle"
 		}
 		return a.Shape
 	}
 	for _, c := range a.Req.Files {
 		if selfMergeRe.MatchString(c) {
 			return "alias-self-merge"
+		}
+	}
+	for _, c := range a.Req.Files {
+		if strings.Contains(c, "!override") && strings.Contains(c, "&") && strings.Contains(c, "*") {
+			return "alias-override-cycle"
 		}
 	}
 	for _, c := range a.Req.Files {
@@ -544,6 +610,7 @@ func c01Cycles(ctx *core.Ctx) {
 		{"alias-self-merge-ext", "alias", one("x-a: &x\n  k: v\n  <<: *x\nservices:\n  a:\n    image: i\n"), nil},
 		{"alias-self-merge-list", "alias", one("x-a: &x\n  k: v\n  <<: [*x]\nservices:\n  a:\n    image: i\n"), nil},
 		{"alias-self-under-merge", "alias", one("x-a: &x\n  <<:\n    k: *x\nservices:\n  a:\n    image: i\n"), nil},
+		{"alias-override-cycle", "alias", one("x-a: &a !override\n  b: &b\n    k: *a\nx-c: *b\nservices:\n  s:\n    image: i\n"), nil},
 		{"alias-cross-services", "alias", one("services:\n  a: &x\n    image: i\n    labels:\n      l: v\n  b:\n    image: i\n    labels: &y\n      m: *y\n"), nil},
 		// extends
 		{"extends-self", "extends", one("services:\n  a:\n    image: i\n    extends: a\n"), nil},
